@@ -2,7 +2,8 @@
 (* Scenario family "chain" (C22, C28): base tip at height 101, base block times 512 s apart, three base coins of 100 000 sat:    *)
 (* coinbases of heights 1, 2 (mature at the base tip) and 3 (mature once the tip is at 102). Parent / child / grandchild,        *)
 (* a conflicting pair, a coinbase spend at the maturity edge, height- and time-locked transactions that become final with the   *)
-(* first new block, a BIP68-locked child, and a spend that consensus accepts but the standard script flags reject.               *)
+(* first new block (one of them with a child), a BIP68-locked child, a spend that consensus accepts but the standard script     *)
+(* flags reject, and a spend that fails a consensus script rule (CLTV).                                                          *)
 EXTENDS Integers, Sequences
 F == [kind |-> "final", v |-> 0]
 NF == [kind |-> "disabled", v |-> 0]        \* non-final sequence without a BIP68 meaning (bit 31 set)
@@ -12,20 +13,22 @@ In(t, i, sq) == [op |-> <<t, i>>, seq |-> sq]
 Out(v) == [v |-> v, cls |-> "true"]
 Tx(ins, outs, ver, lock) == [ins |-> ins, outs |-> outs, ver |-> ver, lock |-> lock, pad |-> 0]
 TxUDef == <<
-  Tx(<<In(0,1,F)>>, <<Out(40000), Out(40000), [v |-> 18000, cls |-> "nopx"]>>, 1, NoLock),   \* 1: parent, fee 2000
+  Tx(<<In(0,1,F)>>, <<Out(40000), Out(40000), [v |-> 9000, cls |-> "nopx"], [v |-> 9000, cls |-> "cltv"]>>, 1, NoLock),   \* 1: parent, fee 2000
   Tx(<<In(0,1,F)>>, <<Out(95000)>>, 1, NoLock),                                              \* 2: conflicts with 1, fee 5000
   Tx(<<In(1,1,F)>>, <<Out(38500)>>, 1, NoLock),                                              \* 3: child of 1, fee 1500
   Tx(<<In(1,2,F), In(3,1,F)>>, <<Out(77500)>>, 1, NoLock),                                   \* 4: spends 1 and 3, fee 1000
   Tx(<<In(0,3,F)>>, <<Out(99000)>>, 1, NoLock),                                              \* 5: coinbase of height 3: premature until the tip is 102
   Tx(<<In(0,2,NF)>>, <<Out(99000)>>, 1, [kind |-> "height", v |-> 102]),                     \* 6: nLockTime 102: final once the tip is 102
   Tx(<<In(1,2,SH(1))>>, <<Out(39000)>>, 2, NoLock),                                          \* 7: BIP68 one block after 1 confirms (conflicts with 4)
-  Tx(<<In(1,3,F)>>, <<Out(17000)>>, 1, NoLock),                                              \* 8: spends the NOP4 output: valid in a block, not for the mempool
-  Tx(<<In(0,2,NF)>>, <<Out(98800)>>, 1, [kind |-> "time", v |-> -2560])                      \* 9: nLockTime = MTP(base tip): final once the tip is 102 (conflicts with 6)
+  Tx(<<In(1,3,F)>>, <<Out(8000)>>, 1, NoLock),                                               \* 8: spends the NOP4 output: valid in a block, not for the mempool
+  Tx(<<In(0,2,NF)>>, <<Out(98800)>>, 1, [kind |-> "time", v |-> -2560]),                     \* 9: nLockTime = MTP(base tip): final once the tip is 102 (conflicts with 6)
+  Tx(<<In(6,1,F)>>, <<Out(98000)>>, 1, NoLock),                                              \* 10: child of 6: goes with it when a disconnect makes 6 non-final again
+  Tx(<<In(1,4,F)>>, <<Out(8000)>>, 1, NoLock)                                                \* 11: spends the CHECKLOCKTIMEVERIFY output with nLockTime 0: fails by consensus and by policy
 >>
 BaseDef == << [v |-> 100000, h |-> 1], [v |-> 100000, h |-> 2], [v |-> 100000, h |-> 3] >>
 H0Def == 101
 BaseDtDef == 512
-AllTx == 1..9
+AllTx == 1..11
 NoTx == {}
 NoTicks == {}
 NoReorgs == {}
